@@ -20,6 +20,7 @@ LEVEL_TEXT = ("every assignment of constraint kinds (equality, lower, upper, two
               "options in {None, {}, dict}; 12-40 test points each (random and near-boundary); bounded enumeration")
 LEVEL_NOTE = "trusted: the feasibility predicate in this file, the interceptor; linear rows that touch fixed variables may be omitted by ropt ('retained' rows are judged), every other configured restriction must be present"
 ANCHOR_FILES = ["src/ropt/plugins/optimizer/scipy.py", "src/ropt/plugins/optimizer/utils.py", "src/ropt/config/enopt/_optimizer_config.py"]
+EXECUTION_COUNTERS = ["points_compared"]   # executions of the oracle inside the cases (reported as coverage.evaluations)
 RULE = ("case = (method, constraint-kind assignment, mask/options variant); non-trivial if the configuration was accepted and the captured problem was compared on test points; "
         "rejected combinations are counted separately; distinct key = case")
 ASSUMPTIONS = ["test points closer than 1e-7 to a constraint boundary are skipped", "a problem without any finite variable bound may be passed with bounds=None"]
